@@ -62,6 +62,30 @@ pub fn session(line: &str) -> String {
                 Some("poll") => verif::set_poll_period(w.get(1).and_then(|s| s.parse().ok()).unwrap_or(100_000)),
                 Some("abort") => verif::set_abort_at(Some((w.get(1).and_then(|s| s.parse().ok()).unwrap_or(1), w.get(2).and_then(|s| s.parse().ok()).unwrap_or(0)))),
                 Some("noabort") => verif::set_abort_at(None),
+                // hand a command to the engine at once, also while a search is running (the plain fields wait for the
+                // pending bestmove before position/go/ucinewgame): messages that arrive DURING a search
+                Some("during") => {
+                    let text = rest.trim_start_matches("during").trim();
+                    match std::panic::catch_unwind(|| CommandParser::new(text).parse()) {
+                        Ok(Ok(cmd)) if healthy => {
+                            let is_quit = matches!(cmd, UciCommand::Quit);
+                            if matches!(cmd, UciCommand::SetOption { .. } | UciCommand::SetOptionValue { .. }) { out.push("@setoption-skipped".into()); continue; }
+                            if is_quit {
+                                // quit joins the search thread: the pending search must end with its bestmove first
+                                engine.accept(cmd);
+                                drain(&rx, &mut out);
+                                out.push("@quit-done".into());
+                                verif::set_abort_at(None);
+                                verif::set_poll_period(100_000);
+                                return out.join(" ;; ");
+                            }
+                            engine.accept(cmd);
+                            std::thread::sleep(Duration::from_millis(1));
+                        }
+                        Ok(Ok(_)) => {}
+                        _ => out.push("@parse-error".into()),
+                    }
+                }
                 Some("sleep") => std::thread::sleep(Duration::from_millis(w.get(1).and_then(|s| s.parse().ok()).unwrap_or(1))),
                 Some("wait") => { if pending { healthy &= wait_bestmove(&rx, &mut out, GO_TIMEOUT); pending = false; } }
                 Some("fen") => {
